@@ -22,11 +22,11 @@ P = {
          "declaration universe bounded as in spec/MC_Decl.tla; tools/gen_decl.py trusted"),
  "C09": (True, "model_checking", "6 C09",
          "TLA+ string-table semantics (Codec!StoreString used by Enc and Dec alike) checked by TLC on MC_Strings.tla over all write sequences x placements; every sequence replayed through the library (one context per stream)",
-         "all sequences of <= 4 (quick) / 5 (thorough) writes over {a, b, gone} x {dedup, plain} in 8 placements incl. evolved records whose header carries a removed / transient field name colliding with a value, and two such records in a vector; bytes, decoded strings, first-is-plain / repeat-is-VarI(-id) / no-repeat-no-cost, and ids never introduced. Long streams: 130 / 300 / 8200 distinct strings followed by repeats of ids on both sides of every width change of a back-reference; evolved record whose added field is declared first.",
+         "all sequences of <= 4 (quick) / 5 (thorough) writes over {a, b, gone} x {dedup, plain} in 8 placements incl. evolved records whose header carries a removed / transient field name colliding with a value, and two such records in a vector; bytes, decoded strings, first-is-plain / repeat-is-VarI(-id) / no-repeat-no-cost, and ids never introduced. Long streams: 130 / 300 / 8200 distinct strings followed by repeats of ids on both sides of every width change of a back-reference; evolved record whose added field is declared first. 630 sequences that mix deduplicated strings with offers to the object table: each table numbers its own entries (TablesIndependent).",
          "cross-version dedup is documented by the library as incompatible and is outside the property"),
  "C10": (True, "model_checking", "6 C10",
          "TLA+ object-table and graph-codec specification (Refs.tla) checked by TLC on every small rooted graph; each graph replayed with an Rc<RefCell<Node>> codec built on the library's reference-tracking API, compared by bytes and by pointer-identity canonical form",
-         "all 2249 successor structures on <= 3 nodes (out-degree <= 2) x 2 labelings: isomorphism incl. sharing and distinctness, each reachable object written once, ids in pre-order, termination on cycles; every stream byte rewritten to an object number beyond the table must be rejected as the reference says. Chains of 130 (129 .. 300) nodes whose back-reference cites objects on both sides of 127/128 and 255/256; all offer sequences <= 4 over a record, its first member (same address) and an unrelated object; sharing across the chunks of a record with a header; the table's events of every replayed graph validated by Trace_Refs.",
+         "all 2249 successor structures on <= 3 nodes (out-degree <= 2) x 2 labelings: isomorphism incl. sharing and distinctness, each reachable object written once, ids in pre-order, termination on cycles; every stream byte rewritten to an object number beyond the table must be rejected as the reference says. Chains of 130 (129 .. 300) nodes whose back-reference cites objects on both sides of 127/128 and 255/256; all offer sequences <= 4 over a record, its first member (same address) and an unrelated object; sharing across the chunks of a record with a header; the table's events of every replayed graph validated by Trace_Refs. Offers made from two crates (four assignments of call sites per sequence); 630 sequences mixing offers and deduplicated strings.",
          "the graph codec is harness code (the library ships none); decoded nodes are registered from a boxed arena because the table stores raw pointers (D13)"),
  "C11": (True, "model_checking", "6 C11",
          "VarintCore.tla instantiated twice: over unbounded Int for Apalache (statements proved for all 2^32 u32 and all 2^32 i32 values) and over <<hi4, lo28>> pairs for TLC (all group / zig-zag boundaries, emitted as vectors); replay of the vectors through 4 sinks x 3 sources and a sweep of the real functions against a transliteration of the spec pinned to the vectors",
@@ -50,11 +50,11 @@ P = {
          "compressed blocks are C16's business"),
  "C16": (True, "fault_enumeration", "6 C16",
          "Compressed.tla (frame = var_u32(|d|) var_u32(|z|) z, reader, allocation rule) checked by TLC; trace validation: every frame the library writes and every read it performs is recorded and checked by TLC against Trace_Compressed.tla; payloads inflated by python zlib",
-         "8 contents (empty .. 256 KiB quick / 8 MiB thorough) x levels 0-9 x 3 sinks x 3 sources with a suffix; truncation at every byte of the header and near both payload ends and every 64th (7th) byte in between; bit flips in the first 64 bytes and both length varints rewritten to 7 values each: totality and the allocation bound max(64 KiB, 2 x bytes actually produced).",
+         "8 contents (empty .. 256 KiB quick / 8 MiB thorough) x levels 0-9 x 3 sinks x 3 sources with a suffix; truncation at every byte of the header and near both payload ends and every 64th (7th) byte in between; bit flips in the first 64 bytes and both length varints rewritten to 7 values each: totality, the allocation bound max(64 KiB, 2 x bytes actually produced) and a result that does not depend on fresh memory. Deflate.tla / MC_Deflate: 132 stored-block streams (every split of 0..3 bytes into <= 3 blocks x 3 paddings, splits of 300 / 1000 bytes) x 5 announced lengths built by the specification and read back on every source; level-0 payloads inflated by the specification.",
          "DEFLATE is not specified (opaque payload); python zlib is the independent payload oracle; on a failed read 'bytes actually produced' is measured by running an inflater over the same payload"),
  "C17": (True, "model_checking", "6 C17",
          "TLC invariant EncTotal on MC_EncTotal.tla (outcome of the reference encoder is Ok or the documented error class); replay under catch_unwind on every sink; exhaustive sweep of all Unicode scalar values; counts announced through exact size hints",
-         "all 1 112 064 scalar values of char (encodable iff <= U+FFFF); unencodable characters nested in 7 container / record shapes (error propagates, every entry point hands back Err); dangling FieldMadeOptional -> UnknownFieldReferenceInEvolutionStep; a record with 254 declared steps; sequence counts i32::MAX / i32::MAX+1 / u32::MAX / u32::MAX+1; (thorough) a 2 GiB string and a 4 GiB byte vector; transient constructors in C14's universe. All step lists <= 2 (3) naming a ghost field against the rule IsDangling; codecs that make a top-level call of their own (envelope): five outer x four inner entry points.",
+         "all 1 112 064 scalar values of char (encodable iff <= U+FFFF); unencodable characters nested in 7 container / record shapes (error propagates, every entry point hands back Err); dangling FieldMadeOptional -> UnknownFieldReferenceInEvolutionStep; a record with 254 declared steps; sequence counts i32::MAX / i32::MAX+1 / u32::MAX / u32::MAX+1; (thorough) a 2 GiB string and a 4 GiB byte vector; transient constructors in C14's universe. All step lists <= 2 (3) naming a ghost field against the rule IsDangling; codecs that make a top-level call of their own (envelope): five outer x four inner entry points. Size hints of the sequence writer: 11 kinds (exact, none, loose, upper bounds usize::MAX / 2^31 / 2^32) x 0 / 1 / 3 items x 4 entry points against HintBytes.",
          "write_compressed with >= 4 GiB input is not executed (minutes of DEFLATE); its length check is the same try_into pattern"),
  "C18": (True, "model_checking", "6 C18",
          "PlusCal specification Calls.tla (per-type Once protocol, per-call tables, non-atomic call bodies) checked by TLC over all interleavings incl. liveness; two defect models must be caught; stress replay: fresh process per trial, barrier-released threads on first use of many derived types, results compared with the specification's fresh-call answer",
@@ -66,11 +66,11 @@ P = {
          "AddressSanitizer is not used (Miri also sees uninitialised reads, which ASan does not); Miri executes ~2500 vectors per run"),
  "C03": (True, "model_checking", "6 C03",
          "TLA+ Adt.tla: TLC enumerates all legal evolution histories and checks mechanism (header/chunks/regions) = documented outcome; each history is rendered as derive inputs (one Rust type per version) and every (writer, reader, value, embedding) case replayed; the per-field decision table (AdtMech.tla) is proved by TLC to refine the documented outcome (KindsMeanOutcome) and the decisions recorded from the running library are validated against it (Trace_Adt), the buffer / chunk mechanism against Writer.tla (Trace_Writer)",
-         "TLC checks every legal history up to 3 steps (thorough: 4 steps in two embeddings) from every initial record of 0-2 fields; replayed into generated Rust types: every history up to 2 steps plus 1/16 (quick) / 1/4 (thorough) of the 3-step and 1/256 of the 4-step ones, all version pairs, all values, four embeddings (top level, in a tuple, in a chunk, in a vector in a chunk); expected outcome computed by the specification's Expected operator written from the documentation; vacuity guards: dropping the legality rule or the DESIGN-9 exclusion makes TLC fail.",
+         "TLC checks every legal history up to 3 steps (thorough: 4 steps in two embeddings) from every initial record of 0-2 fields; replayed into generated Rust types: every history up to 2 steps plus 1/16 (quick) / 1/4 (thorough) of the 3-step and 1/256 of the 4-step ones, all version pairs, all values, six embeddings (top level, in a tuple, in a chunk, in a vector in a chunk, as an enum constructor with named and with positional fields); expected outcome computed by the specification's Expected operator written from the documentation; vacuity guards: dropping the legality rule or the DESIGN-9 exclusion makes TLC fail.",
          "field types limited to u8/Option<u8> (plus String and a nested record in the rich configuration); histories bounded; gen_decl.py trusted to render declarations"),
  "C05": (True, "fault_enumeration", "6 C05",
          "TLA+ reference decoder evaluated by TLC on every enumerated hostile input (DecTotal / TamperTotal on Hostile.tla); each input decoded by the library under panic, hang, time and heap monitors in debug (overflow checks) and release builds; Reader.tla's RegionInv proved inductive by Apalache for every buffer length, read size and region (ReaderInt.tla); deep well-formed inputs (MC_Deep), multi-byte text probes (MC_Text), irregular-history data",
-         "all strings over an 8-symbol tag/length alphabet up to length 3 (quick) / 4 (thorough) x 77 target types; every tamper operator (set to each alphabet value, delete, duplicate, insert, swap) at every position of every valid encoding of the depth-2 universe, of derived / evolved / nested / recursive records and of their in-chunk embeddings; all 256^2 strings per type (totality only); witnesses of the two known findings.",
+         "all strings over an 8-symbol tag/length alphabet up to length 3 (quick) / 4 (thorough) x 77 target types; every tamper operator (set to each alphabet value, delete, duplicate, insert, swap) at every position of every valid encoding of the depth-2 universe, of derived / evolved / nested / recursive records and of their in-chunk embeddings; all 256^2 strings per type (totality only); witnesses of the two known findings. Compressed blocks (cuts, bit flips, rewritten headers); every input the library accepts is decoded a second time with fresh heap memory filled differently and must give the same value.",
          "budgets are monitors, not model properties; D14 / D15 are listed known findings (known_findings.json)"),
  "C06": (True, "fault_enumeration", "6 C06",
          "strict TLA+ reference decoder (DESIGN 4.5 leniencies only) gives the verdict for every TLC-enumerated tampered / raw input; replay: implementation Ok(v) must imply reference Ok(v) with the same bytes consumed; Trace_Reader validation of recorded reads / regions; Apalache inductive RegionInv; well-formed data of irregular histories and multi-byte text probes with the reference verdict",
